@@ -9,6 +9,7 @@ package restapi
 import (
 	"net/http"
 	"net/url"
+	"time"
 
 	"github.com/go-openapi/loads"
 	"github.com/go-openapi/runtime/middleware"
@@ -142,6 +143,10 @@ func VerifGenBindStack() {
 	} else {
 		vAssert(got.XMode == nil, "an absent header parameter holds a value")
 	}
+	// absent parameters of formats backed by Go types of their own hold the default of the spec
+	vAssert(got.Wait != nil && time.Duration(*got.Wait) == 90*time.Minute, "an absent duration parameter does not hold the default of the spec")
+	vAssert(got.Blob != nil && string(*got.Blob) == "ab", "an absent byte parameter does not hold the default of the spec")
+	vAssert(got.Day != nil && time.Time(*got.Day).Equal(time.Date(2021, 3, 14, 0, 0, 0, 0, time.UTC)), "an absent date parameter does not hold the default of the spec")
 	vAssert(len(got.Tags) == ntags, "the array parameter has another number of items than the request")
 	if ntags > 0 && len(got.Tags) > 0 {
 		vAssert(got.Tags[0] == t0, "an item of the array parameter is not the one of the request")
